@@ -654,6 +654,41 @@ func c16Added(c *Ctx) {
 		}
 		return vals
 	}
+	// (the resolution above is flow-insensitive: it cannot tell a state installed before the record was built from
+	// one installed afterwards, so the order is checked separately) every assignment of the installed machine's State
+	// comes before every read of that State that feeds the record
+	{
+		var stores []*ssa.Store
+		var loads []ssa.Instruction
+		for _, f := range scope {
+			ssau.Instrs(f, func(in ssa.Instruction) {
+				switch x := in.(type) {
+				case *ssa.Store:
+					if ssau.IsField(x.Addr, prog.Abs("crew"), "Machine", "State") {
+						stores = append(stores, x)
+					}
+				case *ssa.UnOp:
+					if x.Op == token.MUL && ssau.IsField(x.X, prog.Abs("crew"), "Machine", "State") {
+						loads = append(loads, x)
+					}
+				}
+			})
+		}
+		late := ""
+		for _, st := range stores {
+			for _, ld := range loads {
+				if st.Parent() != ld.Parent() {
+					continue
+				}
+				before := flow.InstrDominates(st, ld)
+				after := st.Block() == ld.Block() && flow.Index(ld) < flow.Index(st) || st.Block() != ld.Block() && flow.Reachable(ld.Block(), st.Block(), nil)
+				if !before && after {
+					late = c.pos(st)
+				}
+			}
+		}
+		c.R.Check(late == "", "C16-R4", "AddMachine: the state is installed before the record is taken from it", c.pos(rec), "every assignment of Machine.State precedes the reads of it", "the machine's state is assigned again ("+late+") after the record to be written was taken from it: memory gets one state and the store another")
+	}
 	for _, name := range []string{"NodeName", "Bs"} {
 		r, m := fieldOfRec(name), fieldOfInstalled(name)
 		ok := len(r) > 0 && len(m) > 0 && leafSetKey(r) == leafSetKey(m)
